@@ -97,6 +97,10 @@ pub struct FUnit {
     /// name / comp_dir of the unit (inline strings on the root)
     pub name: Vec<u8>,
     pub comp_dir: Vec<u8>,
+    /// Some(dwo id): the unit is the full unit of a split compilation (a .dwo file): a split-compile unit header in
+    /// DWARF 5 / DW_AT_GNU_dwo_id before; no base attributes and no DW_AT_low_pc on the root (they live on the skeleton
+    /// unit of the main file); location lists of a pre-v5 unit in the GNU .debug_loc.dwo format
+    pub split: Option<u64>,
 }
 
 #[derive(Clone, Debug)]
@@ -129,6 +133,8 @@ pub struct Assembled {
     /// (unit, entry) -> (unit-relative offset, section offset)
     pub positions: BTreeMap<Target, (usize, usize)>,
     pub unit_offsets: Vec<usize>,
+    /// per unit: where its address table starts in .debug_addr (the value of DW_AT_addr_base)
+    pub addr_bases: Vec<u64>,
 }
 
 struct Pools {
@@ -440,7 +446,7 @@ pub fn assemble(d: &FDwarf) -> Assembled {
                 for l in &u.locs {
                     offs.push(loc_old.len() as u64);
                     let le: Vec<(LE, Vec<u8>)> = l.iter().map(|(e, ops)| (e.clone(), encode_expr(ops, ui, &cfg, positions.as_ref()))).collect();
-                    encode_list(&le, ListFmt::Legacy, true, &cfg, &mut loc_old);
+                    encode_list(&le, if u.split.is_some() { ListFmt::GnuDwoLoc } else { ListFmt::Legacy }, true, &cfg, &mut loc_old);
                 }
                 loc_offs.push(offs);
                 loc_bases.push(0);
@@ -486,22 +492,27 @@ pub fn assemble(d: &FDwarf) -> Assembled {
                 if i == 0 {
                     out.push((0x03, F_STRING, 0, AV::Bytes(u.name.clone())));
                     out.push((0x1b, F_STRING, 0, AV::Bytes(u.comp_dir.clone())));
-                    if let Some(lp) = u.low_pc {
+                    if let (Some(id), true) = (u.split, u.version < 5) {
+                        out.push((0x2131, F_DATA8, 0, AV::U(id)));
+                    }
+                    if let (Some(lp), None) = (u.low_pc, u.split) {
                         out.push((0x11, F_ADDR, 0, AV::U(lp)));
                     }
                     if let Some(lo) = line_offsets[ui] {
                         out.push((0x10, secoff_form, 0, AV::U(lo)));
                     }
-                    if !strs.is_empty() {
+                    if u.split.is_some() {
+                        // the bases are implicit in a .dwo file (or come from the skeleton unit)
+                    } else if !strs.is_empty() {
                         out.push((if u.version >= 5 { 0x72 } else { 0x72 }, secoff_form, 0, AV::U(*sbase)));
                     }
-                    if !addrs.is_empty() {
+                    if u.split.is_none() && !addrs.is_empty() {
                         out.push((if u.version >= 5 { 0x73 } else { 0x2133 }, secoff_form, 0, AV::U(*abase)));
                     }
-                    if u.version >= 5 && !u.ranges.is_empty() {
+                    if u.split.is_none() && u.version >= 5 && !u.ranges.is_empty() {
                         out.push((0x74, secoff_form, 0, AV::U(rng_bases[ui])));
                     }
-                    if u.version >= 5 && !u.locs.is_empty() {
+                    if u.split.is_none() && u.version >= 5 && !u.locs.is_empty() {
                         out.push((0x8c, secoff_form, 0, AV::U(loc_bases[ui])));
                     }
                 }
@@ -551,7 +562,12 @@ pub fn assemble(d: &FDwarf) -> Assembled {
                 out
             };
             let root = build(u, ui, 0, &mut abbrevs, &mut ctx);
-            specs.push(UnitSpec { cfg, kind: if u.partial { UnitKind::Partial } else { UnitKind::Compile }, abbrevs, abbrev_group: ui, root, trailing_nulls: 0 });
+            let kind = match (u.split, u.version >= 5) {
+                (Some(id), true) => UnitKind::SplitCompile(id),
+                _ if u.partial => UnitKind::Partial,
+                _ => UnitKind::Compile,
+            };
+            specs.push(UnitSpec { cfg, kind, abbrevs, abbrev_group: ui, root, trailing_nulls: 0 });
         }
         let built = build_info(&specs, false);
         let mut pos: BTreeMap<Target, (usize, usize)> = BTreeMap::new();
@@ -582,7 +598,60 @@ pub fn assemble(d: &FDwarf) -> Assembled {
     sections.insert(".debug_addr", addr.buf);
     sections.insert(".debug_line", line.buf);
     let unit_offsets = built.units.iter().map(|u| u.offset).collect();
-    Assembled { sections, positions: positions.unwrap(), unit_offsets }
+    Assembled { sections, positions: positions.unwrap(), unit_offsets, addr_bases: addr_tables.iter().map(|t| t.0).collect() }
+}
+
+/// The two files of a split compilation: `d` holds exactly one unit with `split = Some(dwo id)`.
+/// Returns (sections of the main file with the skeleton unit, sections of the .dwo file under their plain names).
+/// The main file carries .debug_addr and, before DWARF 5, .debug_ranges (behind `ranges_pad` bytes, the value of
+/// DW_AT_GNU_ranges_base); everything else stays in the .dwo file.
+pub fn assemble_split(d: &FDwarf, ranges_pad: usize) -> (Sections, Sections, Assembled) {
+    assert!(d.units.len() == 1 && d.units[0].split.is_some());
+    let u = &d.units[0];
+    let id = u.split.unwrap();
+    let asm = assemble(d);
+    let mut dwo = asm.sections.clone();
+    let mut main: Sections = BTreeMap::new();
+    main.insert(".debug_addr", dwo.remove(".debug_addr").unwrap_or_default());
+    let v5 = u.version >= 5;
+    if !v5 {
+        let mut r = vec![0x5au8; ranges_pad];
+        r.extend_from_slice(&dwo.remove(".debug_ranges").unwrap_or_default());
+        main.insert(".debug_ranges", r);
+    }
+    // the skeleton unit
+    let cfg = u.cfg(d.big);
+    let secoff_form = if u.version >= 4 {
+        F_SEC_OFFSET
+    } else if u.format64 {
+        F_DATA8
+    } else {
+        F_DATA4
+    };
+    let mut attrs: Vec<(u16, u16, i64)> = Vec::new();
+    let mut vals: Vec<AV> = Vec::new();
+    attrs.push((if v5 { 0x76 } else { 0x2130 }, F_STRING, 0));
+    vals.push(AV::Bytes(b"unit.dwo".to_vec()));
+    attrs.push((0x1b, F_STRING, 0));
+    vals.push(AV::Bytes(u.comp_dir.clone()));
+    if !v5 {
+        attrs.push((0x2131, F_DATA8, 0));
+        vals.push(AV::U(id));
+        attrs.push((0x2132, secoff_form, 0));
+        vals.push(AV::U(ranges_pad as u64));
+    }
+    attrs.push((if v5 { 0x73 } else { 0x2133 }, secoff_form, 0));
+    vals.push(AV::U(asm.addr_bases[0]));
+    if let Some(lp) = u.low_pc {
+        attrs.push((0x11, F_ADDR, 0));
+        vals.push(AV::U(lp));
+    }
+    let abbrevs = vec![Abbrev { code: 1, tag: if v5 { 0x4a } else { 0x11 }, children: false, attrs }];
+    let spec = UnitSpec { cfg, kind: if v5 { UnitKind::Skeleton(id) } else { UnitKind::Compile }, abbrevs, abbrev_group: 0, root: DieSpec { id: 0, abbrev: 0, vals, children: vec![] }, trailing_nulls: 0 };
+    let built = build_info(std::slice::from_ref(&spec), false);
+    main.insert(".debug_info", built.info);
+    main.insert(".debug_abbrev", built.abbrev);
+    (main, dwo, asm)
 }
 
 fn pools_add(p: &mut Pools, s: &[u8], line: bool) -> u64 {
@@ -602,6 +671,8 @@ pub struct GenOpts {
     pub lines: bool,
     /// probability (out of 256) that a reference points out of bounds / to a non-entry
     pub bad_refs: u32,
+    /// one unit that is the full unit of a split compilation (see FUnit::split)
+    pub split: bool,
 }
 
 pub const TAGS: [u16; 16] = [0x39, 0x13, 0x24, 0x0f, 0x16, 0x2e, 0x34, 0x05, 0x0d, 0x0b, 0x28, 0x04, 0x1d, 0x48, 0x08, 0x2e];
@@ -681,7 +752,7 @@ pub fn gen_fdwarf(ch: &mut Choices, o: &GenOpts) -> FDwarf {
     let counts: Vec<usize> = (0..nunits).map(|_| 1 + ch.count(o.max_dies - 1)).collect();
     let mut units = Vec::new();
     for ui in 0..nunits {
-        let version = ch.pick(&[4u16, 5, 5, 3, 2, 4]);
+        let version = if o.split { ch.pick(&[4u16, 5, 5, 4]) } else { ch.pick(&[4u16, 5, 5, 3, 2, 4]) };
         let format64 = ch.chance(50);
         let address_size = ch.pick(&[8u8, 4]);
         let cfg = Cfg { big, runtime_endian: true, address_size, format64, version };
@@ -707,7 +778,8 @@ pub fn gen_fdwarf(ch: &mut Choices, o: &GenOpts) -> FDwarf {
         };
         let mut locs = Vec::new();
         for _ in 0..nl {
-            let l = gen_list(ch, version, has_base, true);
+            // pre-v5 split units use the DW_LLE kinds (GNU .debug_loc.dwo format), without default locations
+            let l = if o.split && version < 5 { gen_list(ch, 5, has_base, true).into_iter().filter(|e| e.0 != LE::DefaultLocation).collect() } else { gen_list(ch, version, has_base, true) };
             let mut out = Vec::new();
             for (e, has_data) in l {
                 let ops = if has_data { gen_ref_expr(ch, &cfg, ui, &mut same, &mut any, 0) } else { Vec::new() };
@@ -766,10 +838,13 @@ pub fn gen_fdwarf(ch: &mut Choices, o: &GenOpts) -> FDwarf {
                 let sform = |ch: &mut Choices| -> StrForm {
                     match ch.below(6) {
                         0 | 1 => StrForm::Inline,
-                        2 | 3 => StrForm::Strp,
-                        4 if version >= 5 => StrForm::LineStrp,
+                        2 => StrForm::Strp,
+                        3 if !o.split => StrForm::Strp,
+                        4 if version >= 5 && !o.split => StrForm::LineStrp,
                         _ => {
-                            if version >= 5 {
+                            if version < 5 && o.split {
+                                StrForm::Strx(F_GNU_STR_INDEX)
+                            } else if version >= 5 {
                                 StrForm::Strx(ch.pick(&[F_STRX, F_STRX1, F_STRX2, F_STRX3, F_STRX4]))
                             } else {
                                 // before DWARF 5 string indices only occur in split units (no base attribute): not generated here
@@ -802,7 +877,7 @@ pub fn gen_fdwarf(ch: &mut Choices, o: &GenOpts) -> FDwarf {
                 let a = match ch.below(16) {
                     0 | 1 => (0x03, FVal::Str(gen_name(ch), sform(ch))),
                     2 | 3 | 4 => (ch.pick(&[0x49u16, 0x49, 0x31, 0x47, 0x1d]), gen_ref(ch)),
-                    5 => (0x11, FVal::Addr(0x4000 + ch.below(64) as u64 * 0x10, if ch.chance(100) { Some(if version >= 5 { ch.pick(&[F_ADDRX, F_ADDRX1, F_ADDRX2, F_ADDRX4]) } else { F_GNU_ADDR_INDEX }) } else { None })),
+                    5 => (0x11, FVal::Addr(0x4000 + ch.below(64) as u64 * 0x10, if ch.chance(if o.split { 220 } else { 100 }) { Some(if version >= 5 { ch.pick(&[F_ADDRX, F_ADDRX1, F_ADDRX2, F_ADDRX4]) } else { F_GNU_ADDR_INDEX }) } else { None })),
                     6 => (0x12, FVal::Const(ch.pick(&[F_DATA1, F_DATA2, F_DATA4, F_DATA8, F_UDATA]), 1 + ch.below(200) as u64)),
                     7 if nfiles > 0 => (ch.pick(&[0x3au16, 0x58]), FVal::FileIndex(if version >= 5 && ch.chance(90) { F_IMPLICIT_CONST } else { ch.pick(&[F_DATA1, F_UDATA, F_DATA2]) }, if version >= 5 { ch.below(nfiles) as u64 } else { ch.below(nfiles + 1) as u64 })),
                     8 => (0x3b, FVal::Const(ch.pick(&[F_DATA1, F_DATA2, F_UDATA, F_SDATA]), ch.below(120) as u64)),
@@ -849,7 +924,7 @@ pub fn gen_fdwarf(ch: &mut Choices, o: &GenOpts) -> FDwarf {
                 dies[i].attrs = twin;
             }
         }
-        units.push(FUnit { version, format64, address_size, partial: ch.chance(40), low_pc, dies, ranges, locs, line, name: format!("unit{}.c", ui).into_bytes(), comp_dir: b"/build".to_vec() });
+        units.push(FUnit { version, format64, address_size, partial: !o.split && ch.chance(40), low_pc, dies, ranges, locs, line, name: format!("unit{}.c", ui).into_bytes(), comp_dir: b"/build".to_vec(), split: if o.split { Some(0x1122_3344_5566_7788 ^ ch.u64()) } else { None } });
     }
     FDwarf { big, units }
 }
